@@ -759,11 +759,15 @@ class KlongInterpreter():
         # Parse cache — keyed by (source, module) since parsing depends on
         # the active module (symbols get module-qualified names).
         cache_key = (x, self._module)
-        cached = self._parse_cache.get(cache_key)
-        if cached is None:
+        entry = self._parse_cache.get(cache_key)
+        if entry is None:
             i, prog = self.prog(x)
             cached = prog[0] if len(prog) == 1 else prog
-            self._parse_cache[cache_key] = cached
+            # parsing .module() switches the active module: remember it so a
+            # cache hit leaves the parser in the same state as a fresh parse
+            self._parse_cache[cache_key] = (cached, self._module)
+        else:
+            cached, self._module = entry
 
         # Try compiled path (single expressions only)
         if type(cached) is not list:
